@@ -488,6 +488,9 @@ func (e *env) addAll(q int, specs []itemSpec) *batch {
 		if (b.idx+i)%5 == 4 {
 			id = " " + id + "\t" // ids are carried verbatim, surrounding white space included
 		}
+		if (b.idx+i)%7 == 3 {
+			id = "g:" + id // an id that looks like a batch tag is still the caller's id
+		}
 		sid := "g:" + id
 		if sp.noID {
 			id, sid = "", ""
